@@ -7,6 +7,7 @@ import XgiModel.Lemmas.HGWF
 import XgiModel.Lemmas.HGShuffle
 import XgiModel.Lemmas.HGEffects
 import XgiModel.Lemmas.HGAttrs
+import XgiModel.Lemmas.HGMerge
 import Mathlib.Tactic.Tauto
 import Mathlib.Tactic.ByContra
 
@@ -325,6 +326,66 @@ theorem update_nodes_only (s : HG) (nodes : List (PyId × Option Attrs)) (hn : n
   have h1 : nodes.isEmpty = false := by cases nodes <;> simp_all
   simp only [update, h1, guardF, hf, andThen, Bool.false_eq_true, if_false]
 
+/-! ### duplicate merging (every rename rule, merge rule and multiplicity option; returning, warning or raising) -/
+
+/-- `merge_duplicate_edges` never adds or removes a node -/
+theorem merge_nodes_kept {s : HG} (h : Inv s) (rename : Rename) (rule : MergeRule) (mult : Option String)
+    (r : HG × Outcome) (hr : mergeDuplicateEdges s rename rule mult = some r) : r.1.nodes = s.nodes := by
+  refine merge_induct h (fun t => t.nodes = s.nodes) rename rule mult r hr (fun _ => rfl) ?_ ?_
+  · intro t dups _ ht _
+    exact (removeEdgesFrom_fields dups t).1.trans ht
+  · intro t news _ ht hn
+    refine addEdgesFrom_f4_nodes [] news t s.nodes ht ?_
+    intro it hit n hn'
+    obtain ⟨e, he, hm⟩ := hn it hit
+    rw [hm] at hn'
+    exact (h.1.e2n e he n hn').1
+
+/-- an edge that has no duplicate is left exactly as it was: it is still an edge, with the same members and the
+    same attribute dict -/
+theorem merge_unique_untouched {s : HG} (h : Inv s) (rename : Rename) (rule : MergeRule) (mult : Option String)
+    (r : HG × Outcome) (hr : mergeDuplicateEdges s rename rule mult = some r) (e : PyId) (he : e ∈ s.edges)
+    (hu : ∀ f ∈ s.edges, f ≠ e → ¬ Dup s e f) :
+    e ∈ r.1.edges ∧ r.1.mem e = s.mem e ∧ r.1.eattr e = s.eattr e := by
+  refine merge_induct h (fun t => e ∈ t.edges ∧ t.mem e = s.mem e ∧ t.eattr e = s.eattr e) rename rule mult r hr
+    (fun _ => ⟨he, rfl, rfl⟩) ?_ ?_
+  · intro t dups _ ⟨h1, h2, h3⟩ hd
+    obtain ⟨_, a2, a3, _, a5⟩ := removeEdgesFrom_fields dups t
+    have hnd : e ∉ dups := by
+      intro hin
+      obtain ⟨f, hf, hne, hdup⟩ := hd e hin
+      exact hu f hf hne hdup
+    exact ⟨a5 e h1 hnd, by rw [a2]; exact h2, by rw [a3]; exact h3⟩
+  · intro t news ht ⟨h1, h2, h3⟩ _
+    obtain ⟨⟨l, hl⟩, hk⟩ := addEdgesFrom_keeps ht .f4 news []
+    have := hk e h1
+    exact ⟨by rw [hl]; simp [h1], this.1.trans h2, this.2.1.trans h3⟩
+
+/-- hence an edge disappears only if it had a duplicate -/
+theorem merge_removes_only_duplicates {s : HG} (h : Inv s) (rename : Rename) (rule : MergeRule) (mult : Option String)
+    (r : HG × Outcome) (hr : mergeDuplicateEdges s rename rule mult = some r) (e : PyId) (he : e ∈ s.edges)
+    (hgone : e ∉ r.1.edges) : ∃ f ∈ s.edges, f ≠ e ∧ Dup s e f := by
+  by_contra hc
+  refine hgone (merge_unique_untouched h rename rule mult r hr e he ?_).1
+  intro f hf hne hd
+  exact hc ⟨f, hf, hne, hd⟩
+
+/-- no member set is invented: every edge of the result has exactly the members of some edge of the source -/
+theorem merge_member_sets_from_source {s : HG} (h : Inv s) (rename : Rename) (rule : MergeRule) (mult : Option String)
+    (r : HG × Outcome) (hr : mergeDuplicateEdges s rename rule mult = some r) :
+    ∀ e ∈ r.1.edges, ∃ f ∈ s.edges, ∀ x, x ∈ r.1.mem e ↔ x ∈ s.mem f := by
+  refine merge_induct h (fun t => ∀ e ∈ t.edges, ∃ f ∈ s.edges, ∀ x, x ∈ t.mem e ↔ x ∈ s.mem f) rename rule mult r hr
+    (fun _ e he => ⟨e, he, fun _ => Iff.rfl⟩) ?_ ?_
+  · intro t dups _ ht _ e he
+    obtain ⟨_, a2, _, a4, _⟩ := removeEdgesFrom_fields dups t
+    rw [a2]; exact ht e (a4 e he)
+  · intro t news hti ht hn e he
+    rw [addEdgesFrom_f4_eq] at he ⊢
+    rcases bulk_add_members .f4 [] news hti e he with ⟨h1, h2⟩ | ⟨it, hit, h2⟩
+    · rw [h2]; exact ht e h1
+    · obtain ⟨f, hf, hm⟩ := hn it hit
+      exact ⟨f, hf, fun x => by rw [h2 x, hm]⟩
+
 /-! ### degree- and size-preserving moves -/
 
 /-- an accepted double edge swap keeps every degree, every size, all IDs (in order) and all attributes;
@@ -408,5 +469,16 @@ example : ((removeNode s1 (.int 3) true true).1).edges = [] := by decide
 example : ((removeNode s1 (.int 4) false true).1).mem (.int 1) = [.int 3] := by decide
 example : (randomEdgeShuffle s1 (.int 0) (.int 1) [.int 4, .int 1]).map (fun r => (r.2, r.1.mem (.int 0), r.1.mem (.int 1)))
     = some (.ok, [.int 4, .int 1, .int 3], [.int 2, .int 3]) := by decide
+
+/-- a network with a duplicate pair (edges 0 and 1) and a unique edge (2): merging returns, the unique edge is
+    untouched, one representative of the pair remains (`rename="first"`) or a fresh ID is used (`rename="new"`) -/
+private def s2 : HG := ((stepCore HG.empty (.addEdgesFrom .f1
+  [{ members := [.int 1, .int 2], idx := none, attr := [] }, { members := [.int 2, .int 1], idx := none, attr := [] },
+   { members := [.int 3], idx := none, attr := [] }] [])).map (·.1)).getD HG.empty
+example : (mergeDuplicateEdges s2 .first .first none).map (fun r => (r.2, r.1.edges, r.1.mem (.int 0), r.1.nodes))
+    = some (.ok, [.int 2, .int 0], [.int 1, .int 2], [.int 1, .int 2, .int 3]) := by decide +kernel
+example : (mergeDuplicateEdges s2 .new .first (some "multiplicity")).map (fun r => (r.1.edges, r.1.eattr (.int 3), r.1.uid))
+    = some ([.int 2, .int 3], [("multiplicity", .sc (.int 2))], 4) := by decide +kernel
+example : Dup s2 (.int 0) (.int 1) ∧ ¬ Dup s2 (.int 2) (.int 0) := by unfold Dup; decide +kernel
 
 end Xgi.C05
